@@ -348,6 +348,8 @@ def run(chk, P):
     chk.floor('R08.8', 1)
     r08_9(chk, P)
     chk.floor('R08.9', 1)
+    import typestate
+    typestate.c08(chk, P)
     # R08.4a: the conversion of a target uses the set-up of the link it selected (shared implementation with C09 R09.4/R09.1)
     from rules import c09
 
